@@ -1,7 +1,7 @@
 (* Driver.v -- textual report of the model on one program; evaluated either by
    vm_compute inside coqc (kernel route) or by the extracted OCaml (bulk route). *)
 From Coq Require Import ZArith List Bool String.
-From PS.model Require Import Smt Enc Ind Prog.
+From PS.model Require Import Smt Enc Ind Prog Solution.
 Import ListNotations.
 Open Scope string_scope.
 
@@ -64,4 +64,12 @@ Definition confirm_clause (spec : pstate -> list (string * form)) (ops : list op
       | Some (_, f) => CfResult (feval e f) (forallb (fun gf => feval e (snd gf)) (initialize st))
       | None => CfNoClause end
   | _ => CfNoRun
+  end.
+
+(* the report of build_solution on a valuation given by printed variable names (observable O5) *)
+Definition solution_of (ops : list op) (c : solvercfg) (ivals : list (string * Z)) (bvals : list (string * bool))
+           (delta t0 : option Z) : list string :=
+  match run ops with
+  | RunOk (Some st) => solution_report (build_solution c st (env_of ivals bvals) delta t0)
+  | _ => ["NORUN"]
   end.
